@@ -18,10 +18,10 @@
    name last): Go's pointer tree with "addChild replaces the whole subtree" is "remove every entry
    whose key has this key as a suffix".
 
-   Alphabet: bytes < 128; tags <name>, </name>, <name/> with blanks after the name; names
-   [A-Za-z_][A-Za-z0-9_.-]*; text with the five predefined entities and numeric entities < 128,
-   CR / CRLF normalisation. Outside (Unmod): bytes >= 128, "<?", "<!", ':' in a tag name, attributes,
-   numeric entities >= 128. *)
+   Alphabet: all byte strings except: "<?", "<!", ':' or a byte >= 128 in a tag name, attributes (those are
+   Unmod). Tags <name>, </name>, <name/> with blanks after the name; names [A-Za-z_][A-Za-z0-9_.-]*; text of any
+   bytes: the five predefined entities, numeric entities (UTF-8 encoded, surrogates as U+FFFD), CR / CRLF
+   normalisation, and the end-of-run check: valid UTF-8 without U+FFFE / U+FFFF, no control characters. *)
 From Coq Require Import List NArith ZArith Bool.
 From TarsV Require Import Base.Hex Gen.Consts.
 Import ListNotations.
@@ -72,11 +72,18 @@ Fixpoint hex_val (acc : N) (s : bytes) : option N :=
   | c :: r => match hex_digit c with Some d => hex_val (acc * 16 + d) r | None => None end
   end.
 
-Inductive ent_result := EntText (b : N) | EntBad | EntUnmod.
+(* string(rune(n)): UTF-8 encoding; surrogates become U+FFFD *)
+Definition utf8_encode (n : N) : bytes :=
+  if n <? 2048 then [192 + n / 64; 128 + n mod 64]
+  else if (55296 <=? n) && (n <=? 57343) then [239; 191; 189]
+  else if n <? 65536 then [224 + n / 4096; 128 + (n / 64) mod 64; 128 + n mod 64]
+  else [240 + n / 262144; 128 + (n / 4096) mod 64; 128 + (n / 64) mod 64; 128 + n mod 64].
+
+Inductive ent_result := EntText (b : N) | EntBytes (bs : bytes) | EntBad.
 Definition ent_of_code (o : option N) : ent_result :=
   match o with
   | None => EntBad
-  | Some n => if n <? 128 then EntText n else if n <=? 1114111 then EntUnmod else EntBad
+  | Some n => if n <? 128 then EntText n else if n <=? 1114111 then EntBytes (utf8_encode n) else EntBad
   end.
 (* [s] = the bytes between '&' and ';' *)
 Definition decode_entity (s : bytes) : ent_result :=
@@ -90,6 +97,33 @@ Definition decode_entity (s : bytes) : ent_result :=
   | 35 :: ((_ :: _) as d) => ent_of_code (dec_val 0 d)             (* # D+ ; "#x" alone ends here: 'x' is no digit *)
   | _ => EntBad
   end.
+
+(* ------------------------------------------------------------------------------------------- *)
+(* the check at the end of Decoder.text: the run must be valid UTF-8 (utf8.DecodeRune's acceptance table) and free
+   of U+FFFE / U+FFFF (isInCharacterRange; control characters < 0x20 are tested where the byte is read) *)
+Inductive ustate := U0 | UC (n : N) (lo hi : N) | UEF | UEFBF.
+Definition utf8_step (u : ustate) (c : N) : option ustate :=
+  match u with
+  | U0 => if c <? 128 then Some U0
+          else if in_range 194 223 c then Some (UC 1 128 191)
+          else if c =? 224 then Some (UC 2 160 191)
+          else if in_range 225 236 c || (c =? 238) then Some (UC 2 128 191)
+          else if c =? 237 then Some (UC 2 128 159)
+          else if c =? 239 then Some UEF
+          else if c =? 240 then Some (UC 3 144 191)
+          else if in_range 241 243 c then Some (UC 3 128 191)
+          else if c =? 244 then Some (UC 3 128 143)
+          else None
+  | UC n lo hi => if in_range lo hi c then Some (if n =? 1 then U0 else UC (n - 1) 128 191) else None
+  | UEF => if c =? 191 then Some UEFBF else if in_range 128 190 c then Some (UC 1 128 191) else None
+  | UEFBF => if in_range 128 189 c then Some U0 else None
+  end.
+Fixpoint utf8_from (u : ustate) (s : bytes) : bool :=
+  match s with
+  | [] => match u with U0 => true | _ => false end
+  | c :: r => match utf8_step u c with Some u' => utf8_from u' r | None => false end
+  end.
+Definition utf8_valid (s : bytes) : bool := utf8_from U0 s.
 
 (* ------------------------------------------------------------------------------------------- *)
 (* 1. raw tokens *)
@@ -111,7 +145,8 @@ Definition set_mode (m : lmode) (x : lstate) : lstate :=
   {| mode := m; txt := txt x; b0 := b0 x; b1 := b1 x; out := out x; st := st x |}.
 Definition flush (x : lstate) : lstate :=
   {| mode := mode x; txt := []; b0 := 0; b1 := 0;
-     out := match txt x with [] => out x | t => TText (frev t) :: out x end; st := st x |}.
+     out := match txt x with [] => out x | t => TText (frev t) :: out x end;
+     st := match st x with Clean => if utf8_valid (frev (txt x)) then Clean else Failed | s => s end |}.
 Definition emit (ts : list token) (x : lstate) : lstate :=   (* ts in reverse order *)
   {| mode := MText; txt := []; b0 := 0; b1 := 0; out := ts ++ out x; st := st x |}.
 Definition put (c : N) (x : lstate) : lstate :=
@@ -142,18 +177,18 @@ Definition lex_step (x : lstate) (c : N) : lstate :=
         match decode_entity (frev raw) with
         | EntText b => reset_b (set_mode MText (put b (if is_ctrl b then mark Failed x else x)))
         | EntBad => reset_b (set_mode MText (puts (c_amp :: frev raw ++ [c_semi]) (mark Failed x)))
-        | EntUnmod => reset_b (set_mode MText (mark Unmod x))
+        | EntBytes bs => reset_b (set_mode MText (puts bs x))
         end
       else if is_ent_char c then set_mode (MEnt (c :: raw)) x
       else text_step (reset_b (set_mode MText (puts (c_amp :: frev raw) (mark Failed x)))) c
   | MLt =>
       if c =? c_slash then set_mode MLtSlash x
-      else if (c =? c_qm) || (c =? c_bang) || (c =? c_colon) then junk Unmod x
+      else if (c =? c_qm) || (c =? c_bang) || (c =? c_colon) || (128 <=? c) then junk Unmod x
       else if is_name_start c then set_mode (MStartName [c]) x
       else text_step (set_mode MText (put c_lt (mark Failed x))) c
   | MStartName n =>
       if is_name_char c then set_mode (MStartName (c :: n)) x
-      else if c =? c_colon then junk Unmod x
+      else if (c =? c_colon) || (128 <=? c) then junk Unmod x
       else if c =? c_gt then emit [TStart (frev n)] x
       else if c =? c_slash then set_mode (MSlash (frev n)) x
       else if is_xml_blank c then set_mode (MStartWs (frev n)) x
@@ -162,17 +197,17 @@ Definition lex_step (x : lstate) (c : N) : lstate :=
       if is_xml_blank c then x
       else if c =? c_gt then emit [TStart n] x
       else if c =? c_slash then set_mode (MSlash n) x
-      else if is_name_char c || (c =? c_colon) then junk Unmod x
+      else if is_name_char c || (c =? c_colon) || (128 <=? c) then junk Unmod x
       else junk Failed x
   | MSlash n =>
       if c =? c_gt then emit [TEnd n; TStart n] x else junk Failed x
   | MLtSlash =>
       if is_name_start c then set_mode (MEndName [c]) x
-      else if c =? c_colon then junk Unmod x
+      else if (c =? c_colon) || (128 <=? c) then junk Unmod x
       else junk Failed x
   | MEndName n =>
       if is_name_char c then set_mode (MEndName (c :: n)) x
-      else if c =? c_colon then junk Unmod x
+      else if (c =? c_colon) || (128 <=? c) then junk Unmod x
       else if c =? c_gt then emit [TEnd (frev n)] x
       else if is_xml_blank c then set_mode (MEndWs (frev n)) x
       else junk Failed x
@@ -192,8 +227,7 @@ Definition lex_finish (x : lstate) : lstate :=
   end.
 Definition lex_run (bs : bytes) : lstate := lex_finish (fold_left lex_step bs lex_init).
 Definition raw_tokens (bs : bytes) : list token := frev (out (lex_run bs)).
-Definition raw_status (bs : bytes) : status :=
-  if existsb (fun c => 128 <=? c) bs then Unmod else st (lex_run bs).
+Definition raw_status (bs : bytes) : status := st (lex_run bs).
 
 (* ------------------------------------------------------------------------------------------- *)
 (* 2. Decoder.Token's element stack *)
